@@ -27,8 +27,20 @@ theorem tie_ws_read : wsRead =
   ["select(<-t.closeCtx.Done()):t.closeCtx.Err", "select(<-t.closeCtx.Done()):return",
    "select(<-t.queue):if:fmt.Fprintf", "select(<-t.queue):copy", "select(<-t.queue):return"] := by decide
 
+/-- The TLS gate of `NewSession` does not depend on the kind of transport: STARTTLS is attempted whenever the
+transport is not secure, and the gate `!IsSecure() && !Insecure` follows unconditionally (it is not nested in a
+test for STARTTLS support); `startTlsIfSupported` records an error when the transport cannot do STARTTLS and insecure
+connections are not allowed. The WebSocket transport never does STARTTLS and is secure iff its URL says `wss:`. -/
+theorem tie_ws_gate :
+    wsDoesStartTLS = ["false"] ∧
+    wsIsSecure = ["strings.HasPrefix(t.Config.Address,\"wss:\")"] ∧
+    newSessionConds.take 4 = ["(c.Session==nil)", "(s.err!=nil)", "!c.transport.IsSecure()",
+                              "(!c.transport.IsSecure()&&!c.config.Insecure)"] ∧
+    startTlsConds.take 3 = ["(s.err!=nil)", "!s.transport.DoesStartTLS()", "!o.Insecure"] := by decide
+
 end XmppVerif.Tie.Transport
 #print axioms XmppVerif.Tie.Transport.tie_xmpp_close
 #print axioms XmppVerif.Tie.Transport.tie_ws_close
 #print axioms XmppVerif.Tie.Transport.tie_ws_reader
 #print axioms XmppVerif.Tie.Transport.tie_ws_read
+#print axioms XmppVerif.Tie.Transport.tie_ws_gate
